@@ -273,7 +273,7 @@ Proof.
               [now rewrite Eb | exact Es | exact Hm].
           - intros Hlt. apply Hf. unfold meas in *. sim.
             assert (Hne : x :: b <> []) by discriminate. specialize (Em Hne). unfold meas in Em. sim. lia. }
-        destruct (deadline (cpol c) tmo ts (clk s1)) as [| |tr'] eqn:E.
+        destruct (deadline _ tmo ts (clk s1)) as [| |tr'] eqn:E.
         -- apply REC in H. exact H.
         -- destruct (late_read (cpol c) && (n <=? len (buf s1 ++ x :: b))%N) eqn:El.
            ++ apply andb_true_iff in El as [_ El]. inversion H; subst; sim.
@@ -355,9 +355,9 @@ Proof.
              sim. repeat split; try congruence; auto.
              destruct Mrecv as (rx & M1 & M2). sim. exists rx. cbn [ret app] in *. sim. rewrite Hcat.
              split; assumption. }
-           destruct (deadline (cpol c) tmo ts (clk s1)); [apply CUT, H | | apply CUT, H].
+           destruct (deadline _ tmo ts (clk s1)); [apply CUT, H | | apply CUT, H].
            destruct (late_ru (cpol c)); [apply CUT, H | apply TMO, H].
-        -- destruct (deadline (cpol c) tmo ts (clk s1)) as [| |tr'];
+        -- destruct (deadline _ tmo ts (clk s1)) as [| |tr'];
              [apply (REC None), H | apply TMO, H | apply (REC (Some tr')), H].
     + inversion H; subst. repeat split; try congruence; auto.
       exists []. cbn [ret app]. rewrite app_nil_r, Eb. split; [reflexivity | exact Ed].
@@ -377,7 +377,7 @@ Lemma discard_loop_spec c : forall fuel s acc s' r d,
 Proof.
   induction fuel as [|f IH]; intros s acc s' r d H; cbn [discard_loop] in H.
   - inversion H; subst. repeat split; auto; try lia. exists []. now rewrite app_nil_r.
-  - destruct (dev_recv c (maxp c) (Some 0%Z) (logc s (DRecv (maxp c)))) as [s1 dv] eqn:Ed.
+  - destruct (dev_recv c (maxp c) (Some 0%Z) (logc s (DRecvFrom (maxp c)))) as [s1 dv] eqn:Ed.
     apply dev_recv_spec in Ed as (Eo & Eb & Ep & _ & Ew & Ed). sim.
     destruct dv as [b| |b|].
     + destruct Ed as (Es & Elen & Em). destruct b as [|x b].
